@@ -60,7 +60,7 @@ int32_t matrixSslValidatePeerCerts(ssl_t *ssl,
 {
     matrixValidateCertsOptions_t *opts;
     psX509Cert_t *foundIssuer;
-    int32_t rc;
+    int32_t rc, vrc;
 
     opts = &ssl->validateCertsOpts;
 
@@ -79,9 +79,20 @@ int32_t matrixSslValidatePeerCerts(ssl_t *ssl,
         return MATRIXSSL_ERROR;
     }
 
+    vrc = rc;
     psCheckSetPathLenFailure(ssl, ssl->sec.cert);
     rc = psCheckValidationResult(ssl,
             ssl->sec.cert);
+    if (rc == PS_SUCCESS && vrc < 0)
+    {
+        /* A failure that matrixValidateCertsExt reports through its return
+           code only (validation options that do not go together, a date
+           that cannot be parsed): no authStatus was touched, and nothing
+           of the chain has been validated. */
+        psTraceIntInfo("Certificate validation failed: %d\n", vrc);
+        ssl->err = SSL_ALERT_BAD_CERTIFICATE;
+        rc = MATRIXSSL_ERROR;
+    }
     if (rc == PS_SUCCESS &&
             (ssl->keys == NULL || ssl->keys->CAcerts == NULL))
     {
